@@ -232,7 +232,8 @@ class Check:
             else:
                 ok = False
                 keep = os.path.join(self.replay_dir, os.path.basename(f))
-                shutil.copyfile(f, keep)
+                if os.path.abspath(f) != os.path.abspath(keep):
+                    shutil.copyfile(f, keep)
                 line = (r.matched[0] + 1) if r.matched else 0
                 ctx = ''
                 try:
